@@ -188,3 +188,365 @@ Proof.
       inversion E; subst. apply Hsh. left. reflexivity. }
   exists dom0. split; assumption.
 Qed.
+
+(** * Part 2 -- the data side: instances, type keys of a value, strict domain *)
+
+Lemma str_eqb_sym a b : str_eqb a b = str_eqb b a.
+Proof.
+  destruct (str_eqb a b) eqn:E1, (str_eqb b a) eqn:E2; try reflexivity.
+  - apply str_eqb_eq in E1. subst. rewrite str_eqb_refl in E2. discriminate.
+  - apply str_eqb_eq in E2. subst. rewrite str_eqb_refl in E1. discriminate.
+Qed.
+
+Section Data.
+  Variable tau sns : str.
+  Variable G : graph.
+
+  Definition T0 : typing := instance_typing tau sns G.
+
+  Definition labels_of (n : node) : list str :=
+    map snd (filter (fun nl => node_eqb (fst nl) n) T0).
+
+  (** subjects of the [tau]-triples whose object is named [c] (with multiplicity, as the tracker lists them) *)
+  Definition instances_of (c : str) : list node :=
+    flat_map (fun t => if str_eqb (tp t) tau
+                       then match to t with
+                            | ON cn => if str_eqb (nid cn) c then [ts t] else []
+                            | OL _ _ => []
+                            end
+                       else []) G.
+
+  (** the type keys a value [x] of property [p] contributes to (Spec/Counts.v's
+      [keys_direct] / [keys_inverse] without its collision quirks, which the
+      strict domain excludes): its element type, then the labels of its classes
+      -- except for blank-node subjects on inverse paths *)
+  Definition keys_of (inv : bool) (p : str) (x : obj) : list str :=
+    match x with
+    | OL _ dt => if str_eqb p tau then [] else [dt]
+    | ON n => if str_eqb p tau then [nid n]
+              else elem_type_node n :: (if inv && nkind_eqb (nk n) KBnode then [] else labels_of n)
+    end.
+
+  Definition cntk (i : node) (inv : bool) (p k : str) : N :=
+    N.of_nat (List.length (filter (fun x => mem_str k (keys_of inv p x)) (nbrs G i inv p))).
+
+  (** non-literal neighbours of the instances of class [c] *)
+  Definition nl_nbrs (c : str) (inv : bool) (p : str) : list node :=
+    flat_map (fun i => flat_map (fun x => match x with ON n => [n] | OL _ _ => [] end) (nbrs G i inv p))
+             (instances_of c).
+
+  (** the property's strict domain *)
+  Record strict_dom : Prop := {
+    sd_once : NoDup G;
+    sd_datatypes : forall t c dt, In t G -> to t = OL c dt ->
+                     is_nonliteral_type dt = false /\ dt <> c_NONLITERAL_ELEM_TYPE;
+    sd_labels : forall n l, In (n, l) T0 -> is_shape_type l = true;
+    sd_classes : forall t, In t G -> tp t = tau ->
+                   exists c, to t = ON (Node KIri c) /\ labels_of (Node KIri c) = [] /\
+                             c <> c_NONLITERAL_ELEM_TYPE;
+    sd_kinds : forall c inv p x y, p <> tau -> In x (nl_nbrs c inv p) -> In y (nl_nbrs c inv p) -> nk x = nk y;
+    sd_typed : forall c inv p, p <> tau ->
+                 (forall x, In x (nl_nbrs c inv p) -> labels_of x = []) \/
+                 (exists l, forall x, In x (nl_nbrs c inv p) -> labels_of x = [l])
+  }.
+
+  Lemma in_typing_labels n l : in_typing T0 n l = mem_str l (labels_of n).
+  Proof.
+    unfold in_typing, labels_of. induction T0 as [|[n' l'] T IH]; cbn; [reflexivity|].
+    destruct (node_eqb n' n) eqn:En; cbn.
+    - rewrite IH, (str_eqb_sym l' l). reflexivity.
+    - exact IH.
+  Qed.
+
+  Lemma labels_of_In n l : In l (labels_of n) <-> In (n, l) T0.
+  Proof.
+    unfold labels_of. rewrite in_map_iff. split.
+    - intros [[n' l'] [E H]]. cbn in E. subst l'. apply filter_In in H. destruct H as [H1 H2]. cbn in H2.
+      apply node_eqb_eq in H2. subst. exact H1.
+    - intros H. exists (n, l). split; [reflexivity|]. apply filter_In. split; [exact H|]. cbn. apply node_eqb_eq. reflexivity.
+  Qed.
+
+  Lemma instances_of_In i c :
+    In i (instances_of c) <-> exists t cn, In t G /\ tp t = tau /\ to t = ON cn /\ nid cn = c /\ ts t = i.
+  Proof.
+    unfold instances_of. rewrite in_flat_map. split.
+    - intros [t [Ht H]]. destruct (str_eqb (tp t) tau) eqn:Ep; [|destruct H]. apply str_eqb_eq in Ep.
+      destruct (to t) as [cn|] eqn:Eo; [|destruct H]. destruct (str_eqb (nid cn) c) eqn:Ec; [|destruct H].
+      apply str_eqb_eq in Ec. destruct H as [<-|[]]. exists t, cn. repeat split; assumption.
+    - intros (t & cn & Ht & Hp & Ho & Hc & Hi). exists t. split; [exact Ht|].
+      rewrite <- Hp, str_eqb_refl, Ho, <- Hc, str_eqb_refl. left. exact Hi.
+  Qed.
+
+  Lemma instance_typed i c : In i (instances_of c) -> In (i, shape_name sns c) T0.
+  Proof.
+    intros H. apply instances_of_In in H. destruct H as (t & cn & Ht & Hp & Ho & Hc & Hi).
+    unfold T0, instance_typing. apply in_flat_map. exists t. split; [exact Ht|].
+    rewrite <- Hp, str_eqb_refl, Ho, Hc, Hi. left. reflexivity.
+  Qed.
+
+  Lemma nbrs_In i inv p x :
+    In x (nbrs G i inv p) <->
+    exists t, In t G /\ tp t = p /\ (if inv then to t = ON i /\ x = ON (ts t) else ts t = i /\ x = to t).
+  Proof.
+    unfold nbrs. destruct inv; rewrite in_map_iff; split.
+    - intros [t [Hx Ht]]. apply filter_In in Ht. destruct Ht as [Ht Hc]. apply andb_true_iff in Hc.
+      destruct Hc as [C1 C2]. apply str_eqb_eq in C1. apply obj_eqb_eq in C2. exists t. repeat split; auto.
+    - intros (t & Ht & Hp & Ho & Hx). exists t. split; [auto|]. apply filter_In. split; [exact Ht|].
+      apply andb_true_iff. split; [apply str_eqb_eq; exact Hp | apply obj_eqb_eq; exact Ho].
+    - intros [t [Hx Ht]]. apply filter_In in Ht. destruct Ht as [Ht Hc]. apply andb_true_iff in Hc.
+      destruct Hc as [C1 C2]. apply str_eqb_eq in C1. apply node_eqb_eq in C2. exists t. repeat split; auto.
+    - intros (t & Ht & Hp & Hs & Hx). exists t. split; [auto|]. apply filter_In. split; [exact Ht|].
+      apply andb_true_iff. split; [apply str_eqb_eq; exact Hp | apply node_eqb_eq; exact Hs].
+  Qed.
+
+  Lemma nl_nbrs_In c inv p n :
+    In n (nl_nbrs c inv p) <-> exists i, In i (instances_of c) /\ In (ON n) (nbrs G i inv p).
+  Proof.
+    unfold nl_nbrs. rewrite in_flat_map. split.
+    - intros [i [Hi H]]. exists i. split; [exact Hi|]. apply in_flat_map in H. destruct H as [x [Hx H]].
+      destruct x as [m|]; [|destruct H]. destruct H as [<-|[]]. exact Hx.
+    - intros [i [Hi H]]. exists i. split; [exact Hi|]. apply in_flat_map. exists (ON n). split; [exact H | left; reflexivity].
+  Qed.
+
+  (** ** element types and labels never collide on the strict domain *)
+  Hypothesis SD : strict_dom.
+
+  Lemma iri_not_shape : is_shape_type c_IRI_ELEM_TYPE = false. Proof. reflexivity. Qed.
+  Lemma bnode_not_shape : is_shape_type c_BNODE_ELEM_TYPE = false. Proof. reflexivity. Qed.
+  Lemma iri_neq_bnode : str_eqb c_IRI_ELEM_TYPE c_BNODE_ELEM_TYPE = false. Proof. reflexivity. Qed.
+
+  Lemma label_not_mem k n : is_shape_type k = false -> mem_str k (labels_of n) = false.
+  Proof.
+    intros Hk. destruct (mem_str k (labels_of n)) eqn:E; [|reflexivity].
+    apply mem_str_In in E. apply labels_of_In in E. apply (sd_labels SD) in E. congruence.
+  Qed.
+
+  Lemma elem_type_shape n : is_shape_type (elem_type_node n) = false.
+  Proof. unfold elem_type_node. destruct (nk n); reflexivity. Qed.
+
+  Lemma nbr_literal_datatype i inv p c dt :
+    In (OL c dt) (nbrs G i inv p) -> is_nonliteral_type dt = false /\ dt <> c_NONLITERAL_ELEM_TYPE.
+  Proof.
+    intros H. apply nbrs_In in H. destruct H as (t & Ht & _ & H). destruct inv.
+    - destruct H as [_ H]. discriminate H.
+    - destruct H as [_ H]. symmetry in H. eapply (sd_datatypes SD); eassumption.
+  Qed.
+
+  (** an instance is not the object of a typing triple: no inverse [tau]-neighbour *)
+  Lemma instance_no_inverse_tau i c : In i (instances_of c) -> nbrs G i true tau = [].
+  Proof.
+    intros Hi. destruct (nbrs G i true tau) as [|x l] eqn:E; [reflexivity|exfalso].
+    assert (Hx : In x (nbrs G i true tau)) by (rewrite E; left; reflexivity).
+    apply nbrs_In in Hx. destruct Hx as (t & Ht & Hp & Ho & _).
+    destruct (sd_classes SD t Ht Hp) as [c' [Ho' [Hl _]]]. rewrite Ho in Ho'. inversion Ho'; subst i.
+    apply instance_typed in Hi. apply labels_of_In in Hi. rewrite Hl in Hi. destruct Hi.
+  Qed.
+
+  Lemma NoDup_all_same {A} (a : A) l : NoDup l -> (forall x, In x l -> x = a) -> List.length l <= 1.
+  Proof.
+    intros Hnd Hall. destruct l as [|x [|y l]]; cbn; try lia. exfalso.
+    inversion Hnd as [|? ? Hnin _]; subst. apply Hnin. left.
+    rewrite (Hall x (or_introl eq_refl)), (Hall y (or_intror (or_introl eq_refl))). reflexivity.
+  Qed.
+
+  Lemma filter_map_length {A B} (f : A -> B) (p : B -> bool) l :
+    List.length (filter p (map f l)) = List.length (filter (fun x => p (f x)) l).
+  Proof. induction l as [|x l IH]; cbn; [reflexivity|]. destruct (p (f x)); cbn; rewrite IH; reflexivity. Qed.
+
+  Lemma filter_filter' {A} (f g : A -> bool) l : filter f (filter g l) = filter (fun x => f x && g x) l.
+  Proof.
+    induction l as [|x l IH]; cbn; [reflexivity|].
+    destruct (g x); cbn; [destruct (f x); cbn; rewrite IH; reflexivity | rewrite andb_false_r; exact IH].
+  Qed.
+
+  (** a node is typed with a class at most once *)
+  Lemma tau_once i inv k c : In i (instances_of c) -> (cntk i inv tau k <= 1)%N.
+  Proof.
+    intros Hi. unfold cntk. destruct inv.
+    - rewrite (instance_no_inverse_tau i c Hi). cbn. lia.
+    - unfold nbrs. rewrite filter_map_length, filter_filter'.
+      set (l := filter _ G).
+      assert (Hl : List.length l <= 1).
+      { apply (NoDup_all_same (T i tau (ON (Node KIri k)))).
+        - apply NoDup_filter. exact (sd_once SD).
+        - intros t Ht. apply filter_In in Ht. destruct Ht as [Ht Hc]. apply andb_true_iff in Hc.
+          destruct Hc as [C1 C2]. apply andb_true_iff in C2. destruct C2 as [C2 C3].
+          apply str_eqb_eq in C2. apply node_eqb_eq in C3.
+          destruct (sd_classes SD t Ht C2) as [c' [Ho _]]. unfold keys_of in C1. rewrite Ho, str_eqb_refl in C1.
+          cbn in C1. rewrite orb_false_r in C1. apply str_eqb_eq in C1. subst.
+          destruct t as [s p o]; cbn in *. subst. reflexivity. }
+      lia.
+  Qed.
+End Data.
+
+(** * Part 3 -- every instance satisfies the shape of its class *)
+
+Lemma filter_ext_in' {A} (f g : A -> bool) l : (forall x, In x l -> f x = g x) -> filter f l = filter g l.
+Proof.
+  induction l as [|x l IH]; cbn; intros H; [reflexivity|].
+  rewrite (H x (or_introl eq_refl)), IH; [reflexivity|]. intros y Hy. apply H. right. exact Hy.
+Qed.
+
+Lemma card_ok_holds c n : card_holds c (N.of_nat n) -> card_ok (scard_of c) n = true.
+Proof.
+  destruct c as [k| | |]; unfold card_holds, scard_of, card_ok; intros H.
+  - apply Nat.eqb_eq. lia.
+  - apply Nat.leb_le. lia.
+  - reflexivity.
+  - apply Nat.leb_le. lia.
+Qed.
+
+Section Sat.
+  Variable fa : FreqAlg.
+  Variable okN : N -> Prop.
+  Variable okF : F fa -> Prop.
+  Hypothesis L : FreqLaws fa okN okF.
+  Variable cfg : scfg.
+  Variable G : graph.
+  Variable sns : str.
+  Let tau := x_tau cfg.
+
+  Hypothesis Hkls : x_keep_less_specific cfg = true.
+  Hypothesis Hac : x_all_compliant cfg = true.
+  Hypothesis Hor : x_disable_or cfg = true.
+  Hypothesis SD : strict_dom tau sns G.
+
+  Variable thr : F fa.
+  Hypothesis Hthr : okF thr.
+  (** the threshold is minimal (the default 0) *)
+  Hypothesis Hthr0 : forall x, okF x -> fle fa thr x = true.
+
+  Variable counts : ccounts.
+  Variable ce : str * centry.
+  Let c := fst ce.
+  Let insts := instances_of tau G c.
+  Let cnt := class_cnt counts ce.
+  Let dir_ok (inv : bool) : Prop := inv = true -> x_inverse cfg = true.
+
+  (** the profile characterisation P1 for this class *)
+  Hypothesis Hcnt : class_cnt counts ce = N.of_nat (List.length insts).
+  Hypothesis HokN : okN (class_cnt counts ce).
+  Hypothesis Hwf : forall inv, dir_ok inv -> pd_wf cfg node insts (cntk tau sns G) inv (class_pd ce inv).
+  Hypothesis Hpos : forall inv, dir_ok inv -> forall p m k cd ck n,
+      In (p, m) (class_pd ce inv) -> In (k, cd) m -> In (ck, n) cd -> (0 < n)%N.
+  Hypothesis Hcomp : forall inv, dir_ok inv -> forall i p k, In i insts -> (0 < cntk tau sns G i inv p k)%N ->
+      exists m cd n, In (p, m) (class_pd ce inv) /\ In (k, cd) m /\
+                     In ((if str_eqb p tau then CKn 1 else CKplus), n) cd.
+
+  Lemma filter_nonempty_witness {A} (f : A -> bool) l : 0 < List.length (filter f l) -> exists x, In x l /\ f x = true.
+  Proof.
+    destruct (filter f l) as [|x r] eqn:E; cbn; [lia|]. intros _.
+    assert (Hx : In x (filter f l)) by (rewrite E; left; reflexivity). apply filter_In in Hx. exists x. exact Hx.
+  Qed.
+
+  (** a profile entry has a witness: an instance with a value carrying the key *)
+  Lemma entry_witness inv p m k cd ck n :
+    dir_ok inv -> In (p, m) (class_pd ce inv) -> In (k, cd) m -> In (ck, n) cd ->
+    exists i x, In i insts /\ In x (nbrs G i inv p) /\ mem_str k (keys_of tau sns G inv p x) = true.
+  Proof.
+    intros Hd H1 H2 H3. destruct (Hwf inv Hd) as [W1 _].
+    pose proof (W1 p m k cd ck n H1 H2 H3) as En. pose proof (Hpos inv Hd p m k cd ck n H1 H2 H3) as Hp.
+    rewrite En in Hp. unfold n_inst in Hp.
+    match type of Hp with
+    | (0 < N.of_nat (List.length (filter ?f ?l)))%N =>
+      destruct (filter_nonempty_witness f l ltac:(lia)) as [i [Hi Hf]]
+    end. cbn beta in Hf.
+    unfold ck_ok in Hf. apply andb_true_iff in Hf. destruct Hf as [Hf _]. apply N.ltb_lt in Hf.
+    unfold cntk in Hf.
+    match type of Hf with
+    | (0 < N.of_nat (List.length (filter ?f ?l)))%N =>
+      destruct (filter_nonempty_witness f l ltac:(lia)) as [x [Hx Hk]]
+    end. cbn beta in Hk.
+    exists i, x. repeat split; assumption.
+  Qed.
+
+  (** a candidate of this class, as (property, key) with its witness *)
+  Lemma base_witness inv b :
+    In b (class_dir fa cfg thr counts ce inv) ->
+    dir_ok inv /\ s_inv b = inv /\ s_choice b = false /\ s_types b = [s_type b] /\
+    exists i x, In i insts /\ In x (nbrs G i inv (s_prop b)) /\
+                mem_str (s_type b) (keys_of tau sns G inv (s_prop b) x) = true.
+  Proof.
+    intros Hb. apply class_dir_In in Hb. destruct Hb as [Hb Hinv].
+    assert (Hd : dir_ok inv).
+    { intros E. apply class_base_In in Hb. destruct Hb as [Hb _]. apply Hb. congruence. }
+    apply class_base_In in Hb. destruct Hb as [_ Hb]. apply base_statements_In in Hb.
+    destruct Hb as (p & m & k & cd & ck & n & H1 & H2 & H3 & _ & Eb).
+    rewrite Hinv in *. split; [exact Hd|]. split; [reflexivity|]. rewrite Eb. cbn.
+    split; [reflexivity|]. split; [reflexivity|]. eapply entry_witness; eassumption.
+  Qed.
+
+  (** what carrying a key says about a value of an ordinary property *)
+  Lemma key_cases inv p i x k :
+    In i insts -> In x (nbrs G i inv p) -> str_eqb p tau = false ->
+    mem_str k (keys_of tau sns G inv p x) = true ->
+    (exists cc dt, x = OL cc dt /\ k = dt /\ is_nonliteral_type k = false /\ k <> c_NONLITERAL_ELEM_TYPE) \/
+    (exists n, x = ON n /\ k = elem_type_node n) \/
+    (exists n, x = ON n /\ In k (labels_of tau sns G n) /\ is_shape_type k = true).
+  Proof.
+    intros Hi Hx Hp Hk. destruct x as [n|cc dt]; cbn in Hk; rewrite Hp in Hk.
+    - cbn in Hk. apply orb_true_iff in Hk. destruct Hk as [Hk|Hk].
+      + right. left. exists n. split; [reflexivity | apply str_eqb_eq; exact Hk].
+      + right. right. exists n. split; [reflexivity|].
+        destruct (inv && nkind_eqb (nk n) KBnode); [discriminate Hk|].
+        apply mem_str_In in Hk. split; [exact Hk|]. apply labels_of_In in Hk. eapply (sd_labels _ _ _ SD); exact Hk.
+    - cbn in Hk. rewrite orb_false_r in Hk. apply str_eqb_eq in Hk. subst k.
+      left. exists cc, dt. split; [reflexivity|]. split; [reflexivity|].
+      eapply nbr_literal_datatype; eassumption.
+  Qed.
+
+  Lemma tau_value i x inv : In i insts -> In x (nbrs G i inv tau) ->
+    inv = false /\ exists cn, x = ON (Node KIri cn) /\ cn <> c_NONLITERAL_ELEM_TYPE.
+  Proof.
+    intros Hi Hx. destruct inv.
+    - rewrite (instance_no_inverse_tau tau sns G SD i c Hi) in Hx. destruct Hx.
+    - split; [reflexivity|]. apply nbrs_In in Hx. destruct Hx as (t & Ht & Hp & _ & ->).
+      destruct (sd_classes _ _ _ SD t Ht Hp) as [cn [Ho [_ Hn]]]. exists cn. split; assumption.
+  Qed.
+
+  (** the type of a candidate is never the NONLITERAL word *)
+  Lemma base_type_not_nl inv b : In b (class_dir fa cfg thr counts ce inv) -> s_type b <> c_NONLITERAL_ELEM_TYPE.
+  Proof.
+    intros Hb. destruct (base_witness inv b Hb) as (_ & _ & _ & _ & i & x & Hi & Hx & Hk).
+    destruct (str_eqb (s_prop b) tau) eqn:Ep.
+    - apply str_eqb_eq in Ep. rewrite Ep in Hx, Hk. destruct (tau_value i x inv Hi Hx) as [_ [cn [-> Hn]]].
+      cbn in Hk. fold tau in Hk. rewrite str_eqb_refl in Hk. cbn in Hk. rewrite orb_false_r in Hk.
+      apply str_eqb_eq in Hk. congruence.
+    - destruct (key_cases inv _ i x _ Hi Hx Ep Hk) as [(cc & dt & _ & _ & _ & Hn) | [(n & _ & E) | (n & _ & _ & Hs)]].
+      + exact Hn.
+      + rewrite E. unfold elem_type_node. destruct (nk n); discriminate.
+      + intros E. rewrite E in Hs. discriminate Hs.
+  Qed.
+
+  (** no property of this class has both an IRI and a BNode candidate *)
+  Lemma no_both_kinds inv (g : list stmt) p :
+    p <> tau ->
+    (forall d, In d g -> like (class_dir fa cfg thr counts ce inv) d /\ s_prop d = p) ->
+    ~ (exists b i, In b g /\ In i g /\ s_type b = c_BNODE_ELEM_TYPE /\ s_type i = c_IRI_ELEM_TYPE).
+  Proof.
+    intros Hp Hg (b & i & Hb & Hi & Tb & Ti).
+    destruct (Hg b Hb) as [[b0 [Hb0 Cb]] Pb]. destruct (Hg i Hi) as [[i0 [Hi0 Ci]] Pi].
+    destruct (base_witness inv b0 Hb0) as (_ & _ & _ & _ & i1 & x1 & Hi1 & Hx1 & Hk1).
+    destruct (base_witness inv i0 Hi0) as (_ & _ & _ & _ & i2 & x2 & Hi2 & Hx2 & Hk2).
+    assert (Eb : s_prop b0 = p /\ s_type b0 = c_BNODE_ELEM_TYPE).
+    { split; [destruct Cb as (_ & E & _); congruence | rewrite <- (same_core_type _ _ Cb); exact Tb]. }
+    assert (Ei : s_prop i0 = p /\ s_type i0 = c_IRI_ELEM_TYPE).
+    { split; [destruct Ci as (_ & E & _); congruence | rewrite <- (same_core_type _ _ Ci); exact Ti]. }
+    destruct Eb as [Eb1 Eb2]. destruct Ei as [Ei1 Ei2]. rewrite Eb1, Eb2 in *. rewrite Ei1, Ei2 in *.
+    assert (Hpt : str_eqb p tau = false) by (apply str_eqb_neq; exact Hp).
+    assert (K1 : exists n, x1 = ON n /\ nk n = KBnode).
+    { destruct (key_cases inv p i1 x1 _ Hi1 Hx1 Hpt Hk1) as [(cc & dt & _ & _ & Hn & _) | [(n & -> & E) | (n & _ & _ & Hs)]].
+      - discriminate Hn.
+      - exists n. split; [reflexivity|]. unfold elem_type_node in E. destruct (nk n); [discriminate E | reflexivity].
+      - discriminate Hs. }
+    assert (K2 : exists n, x2 = ON n /\ nk n = KIri).
+    { destruct (key_cases inv p i2 x2 _ Hi2 Hx2 Hpt Hk2) as [(cc & dt & _ & _ & Hn & _) | [(n & -> & E) | (n & _ & _ & Hs)]].
+      - discriminate Hn.
+      - exists n. split; [reflexivity|]. unfold elem_type_node in E. destruct (nk n); [reflexivity | discriminate E].
+      - discriminate Hs. }
+    destruct K1 as [n1 [-> N1]]. destruct K2 as [n2 [-> N2]].
+    assert (H1 : In n1 (nl_nbrs tau G c inv p)) by (apply nl_nbrs_In; exists i1; split; assumption).
+    assert (H2 : In n2 (nl_nbrs tau G c inv p)) by (apply nl_nbrs_In; exists i2; split; assumption).
+    pose proof (sd_kinds _ _ _ SD c inv p n1 n2 Hp H1 H2) as E. congruence.
+  Qed.
+End Sat.
